@@ -22,13 +22,13 @@ Proof.
     destruct (pexists l0 && pexists l1 && xorb keep0 keep1).
     + destruct keep1; [apply IH1 | apply IH0]; exact I.
     + assert (W1 : wit_ok tol (q ++ [row1 (s_dec s p tf)])
-                     (fst (if keep1 then graftp o tol s tf l1 false Indet 0 (q ++ [row1 (s_dec s p tf)]) k2 else (CU, k2)))).
+                     (fst (if keep1 then graftp o tol s tf l1 false Indet new_idx (q ++ [row1 (s_dec s p tf)]) k2 else (CU, k2)))).
       { destruct keep1; [apply IH1; exact I | exact I]. }
-      destruct (if keep1 then graftp o tol s tf l1 false Indet 0 (q ++ [row1 (s_dec s p tf)]) k2 else (CU, k2)) as [c1 k3].
+      destruct (if keep1 then graftp o tol s tf l1 false Indet new_idx (q ++ [row1 (s_dec s p tf)]) k2 else (CU, k2)) as [c1 k3].
       assert (W0 : wit_ok tol (q ++ [row0 (s_dec s p tf)])
-                     (fst (if keep0 then graftp o tol s tf l0 false Indet 0 (q ++ [row0 (s_dec s p tf)]) k3 else (CU, k3)))).
+                     (fst (if keep0 then graftp o tol s tf l0 false Indet new_idx (q ++ [row0 (s_dec s p tf)]) k3 else (CU, k3)))).
       { destruct keep0; [apply IH0; exact I | exact I]. }
-      destruct (if keep0 then graftp o tol s tf l0 false Indet 0 (q ++ [row0 (s_dec s p tf)]) k3 else (CU, k3)) as [c0 k4].
+      destruct (if keep0 then graftp o tol s tf l0 false Indet new_idx (q ++ [row0 (s_dec s p tf)]) k3 else (CU, k3)) as [c0 k4].
       cbn [fst] in *. repeat split; auto.
 Qed.
 
@@ -62,13 +62,13 @@ Proof.
     destruct (pexists l0 && pexists l1 && xorb keep0 keep1).
     + destruct keep1; [apply IH1 | apply IH0]; discriminate.
     + assert (W1 : marks_ok x (q ++ [row1 (s_dec s p tf)])
-                     (fst (if keep1 then graftp o tol s tf l1 false Indet 0 (q ++ [row1 (s_dec s p tf)]) k2 else (CU, k2)))).
+                     (fst (if keep1 then graftp o tol s tf l1 false Indet new_idx (q ++ [row1 (s_dec s p tf)]) k2 else (CU, k2)))).
       { destruct keep1; [apply IH1; discriminate | exact I]. }
-      destruct (if keep1 then graftp o tol s tf l1 false Indet 0 (q ++ [row1 (s_dec s p tf)]) k2 else (CU, k2)) as [c1 k3].
+      destruct (if keep1 then graftp o tol s tf l1 false Indet new_idx (q ++ [row1 (s_dec s p tf)]) k2 else (CU, k2)) as [c1 k3].
       assert (W0 : marks_ok x (q ++ [row0 (s_dec s p tf)])
-                     (fst (if keep0 then graftp o tol s tf l0 false Indet 0 (q ++ [row0 (s_dec s p tf)]) k3 else (CU, k3)))).
+                     (fst (if keep0 then graftp o tol s tf l0 false Indet new_idx (q ++ [row0 (s_dec s p tf)]) k3 else (CU, k3)))).
       { destruct keep0; [apply IH0; discriminate | exact I]. }
-      destruct (if keep0 then graftp o tol s tf l0 false Indet 0 (q ++ [row0 (s_dec s p tf)]) k3 else (CU, k3)) as [c0 k4].
+      destruct (if keep0 then graftp o tol s tf l0 false Indet new_idx (q ++ [row0 (s_dec s p tf)]) k3 else (CU, k3)) as [c0 k4].
       cbn [fst] in *. repeat split; auto.
 Qed.
 
